@@ -93,7 +93,7 @@ theorem prep_decomp {s s' : St} {prev : Option Nat} {o : PickOutcome} {d : Nat} 
     {ds : List Draw} (h : prep s prev o d = .ok (s', job, ds)) :
     ∃ s1 ps, (if s.toinitiate ≥ 0 then pickLock s o d else pick s o) = .ok (s1, ps, ds) ∧
       Quiet s1 s' ∧ (∃ f : Picked → List (Nat × Nat), job.picked = ps.map (fun p => { p with engIdx := f p })) ∧
-      job.pnumOld = job.picked.map (·.pn) := by
+      job.pnumOld = job.picked.map (·.pn) ∧ ∃ occ', s' = { s1 with occ := occ' } := by
   unfold prep at h
   simp only [] at h
   generalize hpin : (if s.toinitiate ≥ 0 then some s.cworker else prev) = pin? at h
@@ -110,7 +110,7 @@ theorem prep_decomp {s s' : St} {prev : Option Nat} {o : PickOutcome} {d : Nat} 
   · exact absurd h (by simp)
   simp only [Except.ok.injEq, Prod.mk.injEq] at h
   obtain ⟨rfl, rfl, rfl⟩ := h
-  exact ⟨s1, ps, hr, ⟨⟨rfl, rfl, rfl, rfl, rfl, rfl, rfl, rfl, rfl, rfl, rfl⟩, rfl, rfl⟩, ⟨_, rfl⟩, rfl⟩
+  exact ⟨s1, ps, hr, ⟨⟨rfl, rfl, rfl, rfl, rfl, rfl, rfl, rfl, rfl, rfl, rfl⟩, rfl, rfl⟩, ⟨_, rfl⟩, rfl, ⟨_, rfl⟩⟩
 
 theorem getElem?_map_engIdx {ps : List Picked} {f : Picked → List (Nat × Nat)} {j : Nat} {p' : Picked}
     (h : (ps.map (fun p => { p with engIdx := f p }))[j]? = some p') :
@@ -157,7 +157,7 @@ theorem Issue.of_quiet {s s1 s' : St} {ps : List Picked} {ord : Nat} {fresh : Bo
 theorem prep_issue {s s' : St} {prev : Option Nat} {o : PickOutcome} {d : Nat} {job : Job}
     {ds : List Draw} (h : prep s prev o d = .ok (s', job, ds)) :
     ∃ ord fresh, Issue s s' job.picked ord fresh := by
-  obtain ⟨s1, ps, hr, hq, ⟨f, hf⟩, _⟩ := prep_decomp h
+  obtain ⟨s1, ps, hr, hq, ⟨f, hf⟩, _, _⟩ := prep_decomp h
   have hi : ∃ ord fresh, Issue s s1 ps ord fresh := by
     split at hr
     · exact pickLock_issue hr
@@ -169,7 +169,7 @@ theorem prep_issue {s s' : St} {prev : Option Nat} {o : PickOutcome} {d : Nat} {
 theorem prep_draws {s s' : St} {prev : Option Nat} {o : PickOutcome} {d : Nat} {job : Job}
     {ds : List Draw} (h : prep s prev o d = .ok (s', job, ds)) (hn : NoRestore s) :
     s'.mainDraws = s.mainDraws + ds.length ∧ NoRestore s' ∧ (ds = [] ∨ DrawShape ds) := by
-  obtain ⟨s1, ps, hr, ⟨q, _⟩, _, _⟩ := prep_decomp h
+  obtain ⟨s1, ps, hr, ⟨q, _⟩, _, _, _⟩ := prep_decomp h
   have key : s1.mainDraws = s.mainDraws + ds.length ∧ NoRestore s1 ∧ (ds = [] ∨ DrawShape ds) := by
     split at hr
     · exact pickLock_draws hr hn
@@ -189,7 +189,7 @@ theorem prep_fresh {s s' : St} {prev : Option Nat} {o : PickOutcome} {d : Nat} {
     {ds : List Draw} (h : prep s prev o d = .ok (s', job, ds)) (h0 : s.locked0 = []) :
     Issue s s' job.picked s.spawned true ∧ s'.locked0 = [] ∧
       s'.locked = s.locked ++ [(job.picked.map (·.ens), job.picked.map (·.pn))] := by
-  obtain ⟨s1, ps, hr, hq, ⟨f, hf⟩, _⟩ := prep_decomp h
+  obtain ⟨s1, ps, hr, hq, ⟨f, hf⟩, _, _⟩ := prep_decomp h
   have key : Issue s s1 ps s.spawned true ∧ s1.locked0 = [] ∧
       s1.locked = s.locked ++ [(ps.map (·.ens), ps.map (·.pn))] := by
     split at hr
@@ -362,34 +362,36 @@ def midState (y : Sys) (k : Nat) (status : Status) (newW : List (List Rat)) : Ex
 
 theorem sysStepJ_start {y y' : Sys} {o : PickOutcome} {saved : Nat} {oj : Option (Job × List Draw)}
     (h : sysStepJ y (.start o saved) = .ok (y', oj)) :
-    ∃ s1 job ds, Quiet y.s s1 ∧ prep s1 none o saved = .ok (y'.s, job, ds) ∧
-      y'.jobs = y.jobs ++ [job] ∧ oj = some (job, ds) := by
+    ∃ s1 job ds, s1 = (initiate y.s).1 ∧ Quiet y.s s1 ∧ prep s1 none o saved = .ok (y'.s, job, ds) ∧
+      y'.jobs = y.jobs ++ [job] ∧ oj = some (job, ds) ∧ (initiate y.s).2 = true := by
   simp only [sysStepJ] at h
   have hq := initiate_quiet y.s
-  generalize initiate y.s = r at h hq
+  generalize hgen : initiate y.s = r at h hq
   obtain ⟨s1, go⟩ := r
   simp only [] at h hq
   split at h
   · exact absurd h (by simp)
+  rename_i hgo
   split at h
   · exact absurd h (by simp)
   rename_i s2 job ds hprep
   simp only [Except.ok.injEq, Prod.mk.injEq] at h
   obtain ⟨rfl, rfl⟩ := h
-  exact ⟨s1, job, ds, hq, hprep, rfl, rfl⟩
+  exact ⟨s1, job, ds, rfl, hq, hprep, rfl, rfl, by simpa using hgo⟩
 
 theorem sysStepJ_initDone {y y' : Sys} {oj : Option (Job × List Draw)}
-    (h : sysStepJ y .initDone = .ok (y', oj)) : Quiet y.s y'.s ∧ y'.jobs = y.jobs ∧ oj = none := by
+    (h : sysStepJ y .initDone = .ok (y', oj)) :
+    y'.s = (initiate y.s).1 ∧ Quiet y.s y'.s ∧ y'.jobs = y.jobs ∧ oj = none := by
   simp only [sysStepJ] at h
   have hq := initiate_quiet y.s
-  generalize initiate y.s = r at h hq
+  generalize hgen : initiate y.s = r at h hq
   obtain ⟨s1, go⟩ := r
   simp only [] at h hq
   split at h
   · exact absurd h (by simp)
   simp only [Except.ok.injEq, Prod.mk.injEq] at h
   obtain ⟨rfl, rfl⟩ := h
-  exact ⟨hq, rfl, rfl⟩
+  exact ⟨rfl, hq, rfl, rfl⟩
 
 theorem sysStepJ_step {y y' : Sys} {k : Nat} {status : Status} {newW : List (List Rat)}
     {o : PickOutcome} {oj : Option (Job × List Draw)}
@@ -459,7 +461,7 @@ theorem sysStepJ_issue {y y' : Sys} {ev : Ev} {oj : Option (Job × List Draw)}
     · rw [h3, hf]; simp
   cases ev with
   | start o saved =>
-    obtain ⟨s1, job, ds, ⟨q, _, _⟩, hprep, _, hoj⟩ := sysStepJ_start h
+    obtain ⟨s1, job, ds, _, ⟨q, _, _⟩, hprep, _, hoj, _⟩ := sysStepJ_start h
     obtain ⟨ord, fresh, hi⟩ := prep_issue hprep
     refine ⟨hi.seed.trans q.seed, hi.entropy.trans q.entropy, by intro hn; rw [hn] at hoj; simp at hoj, ?_⟩
     intro job' ds' he
@@ -468,7 +470,7 @@ theorem sysStepJ_issue {y y' : Sys} {ev : Ev} {oj : Option (Job × List Draw)}
     obtain ⟨rfl, _⟩ := he
     exact ⟨ord, fresh, key s1 job ord fresh q.entropy q.spawned q.locked0Ord hi⟩
   | initDone =>
-    obtain ⟨⟨q, _, _⟩, _, hoj⟩ := sysStepJ_initDone h
+    obtain ⟨_, ⟨q, _, _⟩, _, hoj⟩ := sysStepJ_initDone h
     exact ⟨q.seed, q.entropy, fun _ => ⟨q.spawned, q.locked0Ord⟩, by intro _ _ he; rw [hoj] at he; simp at he⟩
   | step k status newW o =>
     obtain ⟨job, s2, hjob, hmid, hrest⟩ := sysStepJ_step h
@@ -503,7 +505,7 @@ theorem sysStepJ_draws {y y' : Sys} {ev : Ev} {oj : Option (Job × List Draw)}
       ∀ job ds, oj = some (job, ds) → ds = [] ∨ DrawShape ds := by
   cases ev with
   | start o saved =>
-    obtain ⟨s1, job, ds, ⟨q, _, _⟩, hprep, _, hoj⟩ := sysStepJ_start h
+    obtain ⟨s1, job, ds, _, ⟨q, _, _⟩, hprep, _, hoj, _⟩ := sysStepJ_start h
     have hn1 : NoRestore s1 := by
       unfold NoRestore; rw [q.restarted, q.rgenRestored]; exact hn
     obtain ⟨hm, hn2, hsh⟩ := prep_draws hprep hn1
@@ -515,7 +517,7 @@ theorem sysStepJ_draws {y y' : Sys} {ev : Ev} {oj : Option (Job × List Draw)}
       obtain ⟨_, rfl⟩ := he
       exact hsh
   | initDone =>
-    obtain ⟨⟨q, _, _⟩, _, hoj⟩ := sysStepJ_initDone h
+    obtain ⟨_, ⟨q, _, _⟩, _, hoj⟩ := sysStepJ_initDone h
     subst hoj
     refine ⟨?_, by simpa using q.mainDraws, by intro _ _ he; simp at he⟩
     unfold NoRestore
